@@ -19,6 +19,7 @@ from typing import (
 from typing_extensions import NotRequired, TypedDict
 
 __all__ = [
+    "kwmap_int", "kwmap_str", "seq_int", "seq_str",
     "A", "B", "C", "D", "G", "E", "IE", "N", "TD", "TDp", "TDn", "HasX", "SupportsClose",
     "Suppress", "NoSuppress", "cond", "call", "use", "ident", "first", "pair", "apply_fn",
     "T", "U", "TB", "TC", "Tr", "TrSub", "WithX", "Closer", "R0", "R1", "R2", "R3",
@@ -246,3 +247,22 @@ def is_a(x: object) -> TypeIs[A]:
 
 def is_str_list(x: "list[object]") -> TypeGuard["list[str]"]:
     return all(isinstance(e, str) for e in x)
+
+
+# ----------------------------------------------------------------- non-literal *args / **kwargs sources
+
+
+def kwmap_int() -> "dict[str, int]":
+    return {"qq": 1}
+
+
+def kwmap_str() -> "dict[str, str]":
+    return {"qq": "s"}
+
+
+def seq_int() -> "list[int]":
+    return [1, 2]
+
+
+def seq_str() -> "list[str]":
+    return ["s"]
